@@ -86,9 +86,11 @@ SameBag(a, b) == /\ Len(a) = Len(b)
 (* prediction: the model's step for the recorded operation                 *)
 (***************************************************************************)
 SameKey(m, e) == m.k = e.k /\ m.f = e.f /\ m.t = e.t /\ m.tg = e.tg /\ m.rq = e.rq
-\* position in msgs of the message the operation names (0: the model has none)
+\* position in msgs of the message the operation names: the idx-th oldest with its key (0: the model has none)
 Pos(e) == LET J == {j \in DOMAIN msgs : SameKey(msgs[j], e)}
-          IN IF J = {} THEN 0 ELSE CHOOSE j \in J : \A x \in J : j <= x
+              want == IF Has(e, "idx") THEN e.idx ELSE 1
+              K == {j \in J : Cardinality({x \in J : x <= j}) = want}
+          IN IF K = {} THEN 0 ELSE CHOOSE j \in K : TRUE
 
 \* [n |-> acting node, r |-> [s, out], rest |-> remaining bag] ; n = "-": no prediction
 NoPred == [n |-> NoNode, r |-> R(NodeZero, <<>>), rest |-> msgs]
